@@ -38,7 +38,7 @@ var targets = map[string][]string{
 	"lib/arpping":         {"catchARPReply", "Ping"},
 	"lib/client/callback": {"dumpScriptConf", "envEntry"},
 	"lib/resolvconf":      {"Run"},
-	"lib/client/dclient": {"catchReply", "dclient.Run", "dclient.ResumeClient", "dclient.buildNetconfig", "dclient.runStateDiscovering", "dclient.runStateSelecting",
+	"lib/client/dclient": {"catchReply", "sendMessage", "sendSocket", "dclient.Run", "dclient.ResumeClient", "dclient.buildNetconfig", "dclient.runStateDiscovering", "dclient.runStateSelecting",
 		"dclient.runStateBound", "dclient.runStateRenewing", "dclient.runStateRebinding", "dclient.runStatePurgeInterface", "dclient.runStateIfconfig",
 		"dclient.runStateArpCheck", "dclient.panicReset"},
 	"lib/server/leaseopts": {"ParseConfig", "SetClientOverrides", "representable", "ipv4"},
